@@ -22,13 +22,16 @@ RECURSIVE BoolSeqs(_)
 BoolSeqs(n) == IF n = 0 THEN {<<>>} ELSE {Append(s, b) : s \in BoolSeqs(n - 1), b \in BOOLEAN}
 Init == /\ small \in BoolSeqs(N) /\ k = 0 /\ stat = "run" /\ result = 0
         /\ prevSmall = FALSE              \* prev_err starts at 1 + tol, which is not below tol
-Rule == /\ stat = "run" /\ k < N
-        /\ k' = k + 1
-        /\ IF small[k + 1] /\ prevSmall
-             THEN stat' = "ok" /\ result' = k + 1
-             ELSE UNCHANGED <<stat, result>>
-        /\ prevSmall' = small[k + 1]
-        /\ UNCHANGED small
+\* one rule with the verdict v of its area (RuleV is used as it is by the trace specification Trace_Gauss,
+\* where the verdict is computed from the recorded function values)
+RuleV(v) == /\ stat = "run" /\ k < N
+            /\ k' = k + 1
+            /\ IF v /\ prevSmall
+                 THEN stat' = "ok" /\ result' = k + 1
+                 ELSE UNCHANGED <<stat, result>>
+            /\ prevSmall' = v
+            /\ UNCHANGED small
+Rule == stat = "run" /\ k < N /\ RuleV(small[k + 1])
 Exhausted == stat = "run" /\ k = N /\ stat' = "err" /\ UNCHANGED <<small, k, prevSmall, result>>
 Next == Rule \/ Exhausted
 
